@@ -105,11 +105,15 @@ Proof.
     destruct (decode_four_hex a b c d); [|discriminate]. intros H. inversion H. subst.
     exists 4%nat. unfold advance. cbn [rest off depth]. rewrite Hr. cbn [length]. repeat split; lia.
 Qed.
+Lemma cons_ne (x : N) l : x :: l <> [].
+Proof. discriminate. Qed.
+Lemma ok_cons_ne (x : N) l w : Ok (x :: l) = Ok w -> w <> [].
+Proof. intros H. injection H as <-. apply cons_ne. Qed.
 Lemma push_wtf8_nonempty n w : push_wtf8 n = Ok w -> w <> [].
 Proof.
-  unfold push_wtf8. destruct (n <? 128); [intros H; inversion H; discriminate|].
-  destruct (n <=? 2047); [intros H; inversion H; discriminate|]. destruct (n <=? 65535); [intros H; inversion H; discriminate|].
-  destruct (n <=? 1114111); [intros H; inversion H; discriminate|discriminate].
+  unfold push_wtf8. destruct (n <? 128); [apply ok_cons_ne|].
+  destruct (n <=? 2047); [apply ok_cons_ne|]. destruct (n <=? 65535); [apply ok_cons_ne|].
+  destruct (n <=? 1114111); [apply ok_cons_ne|discriminate].
 Qed.
 Lemma app_nonempty_l (a b : bytes) : a <> [] -> a ++ b <> [].
 Proof. destruct a; [contradiction|discriminate]. Qed.
@@ -159,3 +163,548 @@ Proof.
   - destruct (escape_simple ch); [|discriminate]. inversion H. subst. split; assumption.
 Qed.
 End Adv.
+
+(* ---- SliceRead::parse_str_bytes ------------------------------------------------------------------------------------------------ *)
+Definition PSB_LOOP : stmt := Eval cbv in nth 1 (fbody SCAN_SliceRead_parse_str_bytes) SContinue.
+Definition is_nil (l : bytes) : bool := match l with [] => true | _ => false end.
+
+(* what parse_str_bytes returns — (Reference, scratch afterwards, reader afterwards) — from the result (contents, copied?, reader) of the model's loop,
+   for the scratch content [buf] on entry and the closure [c]: Borrowed iff no escape was decoded and the scratch buffer was empty *)
+Definition psb_post (E : env) (c : clo) (buf : bytes) (r : res (bytes * bool * st)) : res (retv * bytes * st) :=
+  let* (out, copied, s') := r in
+  if copied || negb (is_nil buf)
+  then let* t := clo_model E c s' (buf ++ out) in Ok (RvRef false t, buf ++ out, s')
+  else let* t := clo_model E c s' out in Ok (RvRef true t, buf, s').
+
+Lemma slice_str_loop_S f E v s : slice_str_loop (S f) E v s =
+    let n := esc_span v (rest s) in
+    let chunk := firstn n (rest s) in
+    let s1 := advance n s in
+    match rest s1 with
+    | [] => error E s1 EofWhileParsingString
+    | b :: _ =>
+      if b =? 34 then Ok (chunk, false, advance 1 s1)
+      else if b =? 92 then
+        let* (w, s2) := Str.parse_escape f E v (advance 1 s1) in
+        let* (out, _, s3) := slice_str_loop f E v s2 in
+        Ok (chunk ++ w ++ out, true, s3)
+      else error E (advance 1 s1) ControlCharacterWhileParsingString
+    end.
+Proof. reflexivity. Qed.
+Lemma set_index_moved sl i n s : set_index sl i (moved sl n s) = set_index sl i s.
+Proof. destruct n; reflexivity. Qed.
+Lemma advance_set_index sl s n : view_ok sl s -> advance n s = set_index sl (off s + n) s.
+Proof. intros H. symmetry. apply set_index_advance. exact H. Qed.
+Lemma advance_1_set sl i s : advance 1 (set_index sl i s) = set_index sl (S i) s.
+Proof.
+  unfold advance, set_index. cbn [rest off depth]. rewrite skipn_skipn. replace (i + 1)%nat with (S i) by lia. reflexivity.
+Qed.
+Lemma error_slice {A} E s c : is_io E = false -> @error A E s c = Err c (off s).
+Proof. intros H. unfold error, err_idx. rewrite H. reflexivity. Qed.
+
+Section SliceLoops.
+Variable E : env.
+Variable sl : bytes.
+Hypothesis Hio : is_io E = false.
+Hypothesis Hw : word_ok sl.
+Hypothesis Hb : bytes_ok sl.
+
+Lemma psb_loop v c : forall k s, (length (rest s) <= k)%nat -> view_ok sl s -> forall fuel mfuel buf,
+  (2 * k + 40 <= fuel)%nat -> (k + 2 <= mfuel)%nat ->
+  exec fuel E SP T sl PSB_LOOP [[("start", VInt TUsize (N.of_nat (off s))); ("validate", VBool v); ("result", VClo c)]] buf s =
+  let* (r, buf', s') := psb_post E c buf (slice_str_loop mfuel E v s) in Ok (ORet r buf' s').
+Proof.
+  induction k as [k IH] using lt_wf_ind. intros s Hk Hv fuel mfuel buf Hf Hm.
+  do 24 (destruct fuel as [|fuel]; [exfalso; lia|]). destruct mfuel as [|mf]; [exfalso; lia|].
+  unfold word_ok in Hw. unfold PSB_LOOP. rewrite ex_loop. step.
+  rewrite call_skip by (auto; lia). cbn.
+  rewrite slice_str_loop_S. cbv zeta.
+  set (n := esc_span v (rest s)).
+  pose proof (esc_span_le v (rest s)) as Hn. fold n in Hn.
+  destruct (moved_facts sl n s Hv) as (Mo & Mr & Md).
+  pose proof (moved_view sl n s Hv Hn) as Mv.
+  rewrite (advance_set_index sl s n Hv).
+  step. rewrite Mo. rewrite rest_set_index. destruct Hv as [Hvr Hvl]. rewrite <- (skipn_skipn n (off s) sl), <- Hvr, <- Mr.
+  assert (Hv : view_ok sl s) by (split; assumption).
+  destruct (rest (moved sl n s)) as [|b r1] eqn:Hr1.
+  - (* end of input *)
+    pose proof (view_nil _ _ Mv Hr1) as Hnil. rewrite Mo in Hnil. conds. step. rewrite !error_slice by exact Hio. rewrite Mo. reflexivity.
+  - destruct (view_cons _ _ _ _ Mv Hr1) as (Hlt & Hnth & Hsk). rewrite Mo in Hlt, Hnth, Hsk. conds.
+    step. step. rewrite Mo. norm. rewrite Hnth. cbn.
+    assert (Hchunk : sub_bytes sl (off s) (off s + n - off s) = firstn n (rest s)).
+    { unfold sub_bytes. rewrite <- Hvr. f_equal. lia. }
+    assert (Hlr1 : (length r1 + 1 + n = length (rest s))%nat).
+    { apply (f_equal (@length N)) in Mr. rewrite skipn_length in Mr. cbn [length] in Mr. lia. }
+    destruct (b =? 34) eqn:Hq; cbn.
+    + (* closing quote *)
+      unfold psb_post. cbn [bind].
+      step. destruct buf as [|b0 buf]; cbn.
+      * step. norm. rewrite Mo. conds. step. rewrite Mo. rewrite in_range_usize by lia. cbn.
+        step. rewrite Hchunk. rewrite apply_clo_src by lia. rewrite set_index_moved.
+        replace (off s + n + 1)%nat with (S (off s + n)) by lia. rewrite advance_1_set.
+        destruct (clo_model E c (set_index sl (S (off s + n)) s) (firstn n (rest s))) as [t| | |]; cbn; reflexivity.
+      * step. norm. rewrite Mo. conds. rewrite Hchunk. step. rewrite Mo. rewrite in_range_usize by lia. cbn.
+        step. rewrite apply_clo_src by lia. rewrite set_index_moved.
+        replace (off s + n + 1)%nat with (S (off s + n)) by lia. rewrite advance_1_set.
+        destruct (clo_model E c (set_index sl (S (off s + n)) s) ((b0 :: buf) ++ firstn n (rest s))) as [t| | |]; cbn; reflexivity.
+    + destruct (b =? 92) eqn:Hbs; cbn.
+      * (* backslash *)
+        step. norm. rewrite Mo. conds. rewrite Hchunk. step. rewrite Mo. rewrite in_range_usize by lia. cbn.
+        rewrite set_index_moved. replace (off s + n + 1)%nat with (S (off s + n)) by lia. rewrite advance_1_set.
+        set (s2 := set_index sl (S (off s + n)) s).
+        assert (Hrs2 : rest s2 = r1) by (unfold s2; rewrite rest_set_index; exact Hsk).
+        assert (Hv2 : view_ok sl s2) by (apply view_set_index; lia).
+        step. rewrite (StrSrc2.parse_escape_src E v s2 _ _ mf) by (rewrite Hrs2; lia).
+        unfold StrSrc2.lift_app.
+        destruct (Str.parse_escape mf E v s2) as [[w s3]| | |] eqn:Hpe; cbn; try reflexivity.
+        destruct (pe_adv E v mf s2 w s3 Hpe) as (A3 & L3 & Hw3).
+        pose proof (adv_view _ _ _ Hv2 A3) as Hv3. destruct A3 as (k3 & _ & _ & _ & D3).
+        step. step. step. fold PSB_LOOP.
+        rewrite (IH (length (rest s3))) with (mfuel := mf); [|rewrite Hrs2 in L3; lia|lia|exact Hv3|rewrite Hrs2 in L3; lia|rewrite Hrs2 in L3; lia].
+        unfold psb_post.
+        destruct (slice_str_loop mf E v s3) as [[[out cp] s4]| | |]; cbn; try reflexivity.
+        replace (is_nil ((buf ++ firstn n (rest s)) ++ w)) with false by (destruct ((buf ++ firstn n (rest s)) ++ w) eqn:Ha; [apply app_eq_nil in Ha; destruct Ha; contradiction|reflexivity]).
+        rewrite orb_true_r. cbn. rewrite <- !app_assoc.
+        destruct (clo_model E c s4 (buf ++ firstn n (rest s) ++ w ++ out)) as [t| | |]; cbn; reflexivity.
+      * (* control character *)
+        step. rewrite Mo. rewrite in_range_usize by lia. cbn. step.
+        rewrite !error_slice by exact Hio. rewrite set_index_moved. rewrite advance_1_set. rewrite !off_set_index. cbn.
+        replace (off s + n + 1)%nat with (S (off s + n)) by lia. reflexivity.
+Qed.
+
+Theorem slice_parse_str_bytes_src : forall v c s buf fuel mfuel, view_ok sl s ->
+  (2 * length (rest s) + 42 <= fuel)%nat -> (length (rest s) + 2 <= mfuel)%nat ->
+  run_scan fuel E SP T sl "SliceRead::parse_str_bytes" [VBool v; VClo c] s buf = psb_post E c buf (slice_str_loop mfuel E v s).
+Proof.
+  intros v c s buf fuel mfuel Hv Hf Hm. do 2 (destruct fuel as [|fuel]; [exfalso; lia|]).
+  enter "SliceRead::parse_str_bytes" SCAN_SliceRead_parse_str_bytes. step.
+  rewrite blk_cons. fold PSB_LOOP. rewrite (psb_loop v c (length (rest s))) with (mfuel := mfuel) by (auto; lia).
+  destruct (psb_post E c buf (slice_str_loop mfuel E v s)) as [[[r b'] s']| | |]; reflexivity.
+Qed.
+
+(* ---- SliceRead::ignore_str ------------------------------------------------------------------------------------------------------ *)
+Definition SIGN_LOOP : stmt := Eval cbv in nth 0 (fbody SCAN_SliceRead_ignore_str) SContinue.
+Lemma slice_ignore_loop_S f s : slice_ignore_loop (S f) E s =
+    let s1 := advance (esc_span true (rest s)) s in
+    match rest s1 with
+    | [] => error E s1 EofWhileParsingString
+    | b :: _ =>
+      if b =? 34 then Ok (advance 1 s1)
+      else if b =? 92 then let* s2 := Str.ignore_escape E (advance 1 s1) in slice_ignore_loop f E s2
+      else error E (advance 1 s1) ControlCharacterWhileParsingString
+    end.
+Proof. reflexivity. Qed.
+
+Lemma sign_loop : forall k s, (length (rest s) <= k)%nat -> view_ok sl s -> forall fuel mfuel buf l,
+  (k + 40 <= fuel)%nat -> (k + 1 <= mfuel)%nat ->
+  exec fuel E SP T sl SIGN_LOOP l buf s = let* s' := slice_ignore_loop mfuel E s in Ok (ORet RvUnit buf s').
+Proof.
+  induction k as [k IH] using lt_wf_ind. intros s Hk Hv fuel mfuel buf l Hf Hm.
+  do 24 (destruct fuel as [|fuel]; [exfalso; lia|]). destruct mfuel as [|mf]; [exfalso; lia|].
+  unfold word_ok in Hw. unfold SIGN_LOOP. rewrite ex_loop. step.
+  rewrite call_skip by (auto; lia). cbn.
+  rewrite slice_ignore_loop_S. cbv zeta.
+  set (n := esc_span true (rest s)).
+  pose proof (esc_span_le true (rest s)) as Hn. fold n in Hn.
+  destruct (moved_facts sl n s Hv) as (Mo & Mr & Md).
+  pose proof (moved_view sl n s Hv Hn) as Mv.
+  rewrite (advance_set_index sl s n Hv).
+  step. rewrite Mo. rewrite rest_set_index. destruct Hv as [Hvr Hvl]. rewrite <- (skipn_skipn n (off s) sl), <- Hvr, <- Mr.
+  assert (Hv : view_ok sl s) by (split; assumption).
+  destruct (rest (moved sl n s)) as [|b r1] eqn:Hr1.
+  - pose proof (view_nil _ _ Mv Hr1) as Hnil. rewrite Mo in Hnil. conds. step. rewrite !error_slice by exact Hio. rewrite Mo. reflexivity.
+  - destruct (view_cons _ _ _ _ Mv Hr1) as (Hlt & Hnth & Hsk). rewrite Mo in Hlt, Hnth, Hsk. conds.
+    step. step. rewrite Mo. norm. rewrite Hnth. cbn.
+    assert (Hlr1 : (length r1 + 1 + n = length (rest s))%nat).
+    { apply (f_equal (@length N)) in Mr. rewrite skipn_length in Mr. cbn [length] in Mr. lia. }
+    destruct (b =? 34) eqn:Hq; cbn.
+    + step. rewrite Mo. rewrite in_range_usize by lia. cbn. step.
+      rewrite set_index_moved. replace (off s + n + 1)%nat with (S (off s + n)) by lia. rewrite advance_1_set. reflexivity.
+    + destruct (b =? 92) eqn:Hbs; cbn.
+      * step. rewrite Mo. rewrite in_range_usize by lia. cbn.
+        rewrite set_index_moved. replace (off s + n + 1)%nat with (S (off s + n)) by lia. rewrite advance_1_set.
+        set (s2 := set_index sl (S (off s + n)) s).
+        assert (Hrs2 : rest s2 = r1) by (unfold s2; rewrite rest_set_index; exact Hsk).
+        assert (Hv2 : view_ok sl s2) by (apply view_set_index; lia).
+        step. rewrite (StrSrc2.ignore_escape_src E true s2) by lia.
+        destruct (Str.ignore_escape E s2) as [s3| | |] eqn:Hie; cbn; try reflexivity.
+        destruct (ie_adv E s2 s3 Hie) as (A3 & L3).
+        pose proof (adv_view _ _ _ Hv2 A3) as Hv3.
+        step. step. fold SIGN_LOOP.
+        rewrite (IH (length (rest s3))) with (mfuel := mf); [reflexivity|rewrite Hrs2 in L3; lia|lia|exact Hv3|rewrite Hrs2 in L3; lia|rewrite Hrs2 in L3; lia].
+      * step. rewrite Mo. rewrite in_range_usize by lia. cbn. step.
+        rewrite !error_slice by exact Hio. rewrite set_index_moved. rewrite advance_1_set. rewrite !off_set_index. cbn.
+        replace (off s + n + 1)%nat with (S (off s + n)) by lia. reflexivity.
+Qed.
+
+Theorem slice_ignore_str_src : forall s buf fuel mfuel, view_ok sl s ->
+  (length (rest s) + 41 <= fuel)%nat -> (length (rest s) + 1 <= mfuel)%nat ->
+  run_scan fuel E SP T sl "SliceRead::ignore_str" [] s buf = let* s' := slice_ignore_loop mfuel E s in Ok (RvUnit, buf, s').
+Proof.
+  intros s buf fuel mfuel Hv Hf Hm. destruct fuel as [|fuel]; [exfalso; lia|].
+  enter "SliceRead::ignore_str" SCAN_SliceRead_ignore_str.
+  rewrite blk_cons. fold SIGN_LOOP. rewrite (sign_loop (length (rest s))) with (mfuel := mfuel) by (auto; lia).
+  destruct (slice_ignore_loop mfuel E s) as [s'| | |]; reflexivity.
+Qed.
+End SliceLoops.
+
+(* ---- IoRead::parse_str_bytes / IoRead::ignore_str (generic calls only: any reader kind, [sl] unused) ------------------------------- *)
+Definition IOPSB_LOOP : stmt := Eval cbv in nth 0 (fbody SCAN_IoRead_parse_str_bytes) SContinue.
+Definition IOIGN_LOOP : stmt := Eval cbv in nth 0 (fbody SCAN_IoRead_ignore_str) SContinue.
+(* what IoRead::parse_str_bytes returns: `result(self, scratch)` on everything pushed *)
+Definition io_post (E : env) (c : clo) (buf : bytes) (r : res (bytes * st)) : res (retv * bytes * st) :=
+  let* (out, s') := r in let* t := clo_model E c s' (buf ++ out) in Ok (RvStr t, buf ++ out, s').
+
+Section IoLoops.
+Variable E : env.
+Variable sl : bytes.
+
+Lemma io_str_loop_S f v s : io_str_loop (S f) E v s =
+    let* (ch, s1) := Str.next_or_eof E s in
+    if negb (is_escape ch true) then
+      let* (out, s2) := io_str_loop f E v s1 in Ok (ch :: out, s2)
+    else if ch =? 34 then Ok ([], s1)
+    else if ch =? 92 then
+      let* (w, s2) := Str.parse_escape f E v s1 in
+      let* (out, s3) := io_str_loop f E v s2 in Ok (w ++ out, s3)
+    else if v then error E s1 ControlCharacterWhileParsingString
+    else let* (out, s2) := io_str_loop f E v s1 in Ok (ch :: out, s2).
+Proof. reflexivity. Qed.
+Lemma io_ignore_loop_S f s : io_ignore_loop (S f) E s =
+    let* (ch, s1) := Str.next_or_eof E s in
+    if negb (is_escape ch true) then io_ignore_loop f E s1
+    else if ch =? 34 then Ok s1
+    else if ch =? 92 then let* s2 := Str.ignore_escape E s1 in io_ignore_loop f E s2
+    else error E s1 ControlCharacterWhileParsingString.
+Proof. reflexivity. Qed.
+
+Lemma app_cons_assoc (a : bytes) x b : (a ++ [x]) ++ b = a ++ x :: b.
+Proof. rewrite <- app_assoc. reflexivity. Qed.
+
+Lemma iopsb_loop v c : forall k s, (length (rest s) <= k)%nat -> forall fuel mfuel buf,
+  (2 * k + 30 <= fuel)%nat -> (k + 2 <= mfuel)%nat ->
+  exec fuel E SP T sl IOPSB_LOOP [[("validate", VBool v); ("result", VClo c)]] buf s =
+  let* (r, buf', s') := io_post E c buf (io_str_loop mfuel E v s) in Ok (ORet r buf' s').
+Proof.
+  induction k as [k IH] using lt_wf_ind. intros s Hk fuel mfuel buf Hf Hm.
+  do 10 (destruct fuel as [|fuel]; [exfalso; lia|]). destruct mfuel as [|mf]; [exfalso; lia|].
+  unfold IOPSB_LOOP. rewrite ex_loop. step. rewrite io_str_loop_S. unfold io_post.
+  destruct (Str.next_or_eof E s) as [[ch s1]| | |] eqn:Hn; cbn; try reflexivity.
+  destruct (noe_adv E s ch s1 Hn) as [_ L1].
+  step. rewrite is_escape_call_src. cbn.
+  destruct (negb (is_escape ch true)) eqn:Hesc; cbn.
+  - (* ordinary byte: push, continue *)
+    step. step. fold IOPSB_LOOP.
+    rewrite (IH (length (rest s1))) with (mfuel := mf) by lia. unfold io_post.
+    destruct (io_str_loop mf E v s1) as [[out s2]| | |]; cbn; try reflexivity. rewrite app_cons_assoc. reflexivity.
+  - step. step.
+    destruct (ch =? 34) eqn:Hq; cbn.
+    + step. rewrite apply_clo_src by lia. rewrite app_nil_r.
+      destruct (clo_model E c s1 buf) as [t| | |]; cbn; reflexivity.
+    + destruct (ch =? 92) eqn:Hbs; cbn.
+      * step. rewrite (StrSrc2.parse_escape_src E v s1 _ _ mf) by lia. unfold StrSrc2.lift_app.
+        destruct (Str.parse_escape mf E v s1) as [[w s2]| | |] eqn:Hpe; cbn; try reflexivity.
+        destruct (pe_adv E v mf s1 w s2 Hpe) as (_ & L2 & _).
+        step. step. fold IOPSB_LOOP.
+        rewrite (IH (length (rest s2))) with (mfuel := mf) by lia. unfold io_post.
+        destruct (io_str_loop mf E v s2) as [[out s3]| | |]; cbn; try reflexivity. rewrite <- app_assoc. reflexivity.
+      * step. destruct v; cbn.
+        -- step. reflexivity.
+        -- repeat step. fold IOPSB_LOOP.
+           rewrite (IH (length (rest s1))) with (mfuel := mf) by lia. unfold io_post.
+           destruct (io_str_loop mf E false s1) as [[out s2]| | |]; cbn; try reflexivity. rewrite app_cons_assoc. reflexivity.
+Qed.
+
+Theorem io_parse_str_bytes_src : forall v c s buf fuel mfuel,
+  (2 * length (rest s) + 31 <= fuel)%nat -> (length (rest s) + 2 <= mfuel)%nat ->
+  run_scan fuel E SP T sl "IoRead::parse_str_bytes" [VBool v; VClo c] s buf = io_post E c buf (io_str_loop mfuel E v s).
+Proof.
+  intros v c s buf fuel mfuel Hf Hm. destruct fuel as [|fuel]; [exfalso; lia|].
+  enter "IoRead::parse_str_bytes" SCAN_IoRead_parse_str_bytes.
+  rewrite blk_cons. fold IOPSB_LOOP. rewrite (iopsb_loop v c (length (rest s))) with (mfuel := mfuel) by lia.
+  destruct (io_post E c buf (io_str_loop mfuel E v s)) as [[[r b'] s']| | |]; reflexivity.
+Qed.
+
+Lemma ioign_loop : forall k s, (length (rest s) <= k)%nat -> forall fuel mfuel buf l,
+  (k + 30 <= fuel)%nat -> (k + 1 <= mfuel)%nat ->
+  exec fuel E SP T sl IOIGN_LOOP l buf s = let* s' := io_ignore_loop mfuel E s in Ok (ORet RvUnit buf s').
+Proof.
+  induction k as [k IH] using lt_wf_ind. intros s Hk fuel mfuel buf l Hf Hm.
+  do 10 (destruct fuel as [|fuel]; [exfalso; lia|]). destruct mfuel as [|mf]; [exfalso; lia|].
+  unfold IOIGN_LOOP. rewrite ex_loop. step. rewrite io_ignore_loop_S.
+  destruct (Str.next_or_eof E s) as [[ch s1]| | |] eqn:Hn; cbn; try reflexivity.
+  destruct (noe_adv E s ch s1 Hn) as [_ L1].
+  step. rewrite is_escape_call_src. cbn.
+  destruct (negb (is_escape ch true)) eqn:Hesc; cbn.
+  - step. fold IOIGN_LOOP. rewrite (IH (length (rest s1))) with (mfuel := mf) by lia. reflexivity.
+  - step. step.
+    destruct (ch =? 34) eqn:Hq; cbn.
+    + step. reflexivity.
+    + destruct (ch =? 92) eqn:Hbs; cbn.
+      * step. rewrite (StrSrc2.ignore_escape_src E true s1) by lia.
+        destruct (Str.ignore_escape E s1) as [s2| | |] eqn:Hie; cbn; try reflexivity.
+        destruct (ie_adv E s1 s2 Hie) as (_ & L2).
+        step. step. fold IOIGN_LOOP. rewrite (IH (length (rest s2))) with (mfuel := mf) by lia. reflexivity.
+      * step. reflexivity.
+Qed.
+
+Theorem io_ignore_str_src : forall s buf fuel mfuel,
+  (length (rest s) + 31 <= fuel)%nat -> (length (rest s) + 1 <= mfuel)%nat ->
+  run_scan fuel E SP T sl "IoRead::ignore_str" [] s buf = let* s' := io_ignore_loop mfuel E s in Ok (RvUnit, buf, s').
+Proof.
+  intros s buf fuel mfuel Hf Hm. destruct fuel as [|fuel]; [exfalso; lia|].
+  enter "IoRead::ignore_str" SCAN_IoRead_ignore_str.
+  rewrite blk_cons. fold IOIGN_LOOP. rewrite (ioign_loop (length (rest s))) with (mfuel := mfuel) by lia.
+  destruct (io_ignore_loop mfuel E s) as [s'| | |]; reflexivity.
+Qed.
+End IoLoops.
+
+(* ---- the Read trait methods -------------------------------------------------------------------------------------------------- *)
+(* IoRead::parse_str / parse_str_raw: `.map(Reference::Copied)` of parse_str_bytes *)
+Definition io_ref_post (E : env) (c : clo) (buf : bytes) (r : res (bytes * st)) : res (retv * bytes * st) :=
+  let* (out, s') := r in let* t := clo_model E c s' (buf ++ out) in Ok (RvRef false t, buf ++ out, s').
+
+Section Glue.
+Variable E : env.
+Variable sl : bytes.
+
+Section SliceGlue.
+Hypothesis Hio : is_io E = false.
+Hypothesis Hw : word_ok sl.
+Hypothesis Hb : bytes_ok sl.
+
+Lemma call_psb v c s buf f mfuel : view_ok sl s -> (2 * length (rest s) + 42 <= f)%nat -> (length (rest s) + 2 <= mfuel)%nat ->
+  call_fn (exec f E SP T sl) T "SliceRead::parse_str_bytes" [VBool v; VClo c] s buf = psb_post E c buf (slice_str_loop mfuel E v s).
+Proof. apply slice_parse_str_bytes_src; assumption. Qed.
+Lemma call_sign s buf f mfuel : view_ok sl s -> (length (rest s) + 41 <= f)%nat -> (length (rest s) + 1 <= mfuel)%nat ->
+  call_fn (exec f E SP T sl) T "SliceRead::ignore_str" [] s buf = let* s' := slice_ignore_loop mfuel E s in Ok (RvUnit, buf, s').
+Proof. apply slice_ignore_str_src; assumption. Qed.
+
+Theorem slice_parse_str_src : forall s buf fuel mfuel, view_ok sl s ->
+  (2 * length (rest s) + 44 <= fuel)%nat -> (length (rest s) + 2 <= mfuel)%nat ->
+  run_scan fuel E SP T sl "SliceRead::parse_str" [] s buf = psb_post E CloAsStr buf (slice_str_loop mfuel E true s).
+Proof.
+  intros s buf fuel mfuel Hv Hf Hm. do 2 (destruct fuel as [|fuel]; [exfalso; lia|]).
+  enter "SliceRead::parse_str" SCAN_SliceRead_parse_str. step. rewrite (call_psb true CloAsStr s buf _ mfuel) by (auto; lia).
+  destruct (psb_post E CloAsStr buf (slice_str_loop mfuel E true s)) as [[[r b'] s']| | |]; reflexivity.
+Qed.
+Theorem slice_parse_str_raw_src : forall s buf fuel mfuel, view_ok sl s ->
+  (2 * length (rest s) + 44 <= fuel)%nat -> (length (rest s) + 2 <= mfuel)%nat ->
+  run_scan fuel E SP T sl "SliceRead::parse_str_raw" [] s buf = psb_post E CloBytes buf (slice_str_loop mfuel E false s).
+Proof.
+  intros s buf fuel mfuel Hv Hf Hm. do 2 (destruct fuel as [|fuel]; [exfalso; lia|]).
+  enter "SliceRead::parse_str_raw" SCAN_SliceRead_parse_str_raw. step. rewrite (call_psb false CloBytes s buf _ mfuel) by (auto; lia).
+  destruct (psb_post E CloBytes buf (slice_str_loop mfuel E false s)) as [[[r b'] s']| | |]; reflexivity.
+Qed.
+Lemma call_psr s buf f mfuel : view_ok sl s -> (2 * length (rest s) + 44 <= f)%nat -> (length (rest s) + 2 <= mfuel)%nat ->
+  call_fn (exec f E SP T sl) T "SliceRead::parse_str_raw" [] s buf = psb_post E CloBytes buf (slice_str_loop mfuel E false s).
+Proof. apply slice_parse_str_raw_src; assumption. Qed.
+
+(* StrRead: the delegate is a SliceRead over the bytes of the &str; parse_str skips the UTF-8 check (from_utf8_unchecked) *)
+Theorem str_parse_str_src : forall s buf fuel mfuel, view_ok sl s ->
+  (2 * length (rest s) + 44 <= fuel)%nat -> (length (rest s) + 2 <= mfuel)%nat ->
+  run_scan fuel E SP T sl "StrRead::parse_str" [] s buf = psb_post E CloUnchecked buf (slice_str_loop mfuel E true s).
+Proof.
+  intros s buf fuel mfuel Hv Hf Hm. do 2 (destruct fuel as [|fuel]; [exfalso; lia|]).
+  enter "StrRead::parse_str" SCAN_StrRead_parse_str. step. rewrite (call_psb true CloUnchecked s buf _ mfuel) by (auto; lia).
+  destruct (psb_post E CloUnchecked buf (slice_str_loop mfuel E true s)) as [[[r b'] s']| | |]; reflexivity.
+Qed.
+Theorem str_parse_str_raw_src : forall s buf fuel mfuel, view_ok sl s ->
+  (2 * length (rest s) + 46 <= fuel)%nat -> (length (rest s) + 2 <= mfuel)%nat ->
+  run_scan fuel E SP T sl "StrRead::parse_str_raw" [] s buf = psb_post E CloBytes buf (slice_str_loop mfuel E false s).
+Proof.
+  intros s buf fuel mfuel Hv Hf Hm. do 2 (destruct fuel as [|fuel]; [exfalso; lia|]).
+  enter "StrRead::parse_str_raw" SCAN_StrRead_parse_str_raw. step. rewrite (call_psr s buf _ mfuel) by (auto; lia).
+  destruct (psb_post E CloBytes buf (slice_str_loop mfuel E false s)) as [[[r b'] s']| | |]; reflexivity.
+Qed.
+Theorem str_ignore_str_src : forall s buf fuel mfuel, view_ok sl s ->
+  (length (rest s) + 43 <= fuel)%nat -> (length (rest s) + 1 <= mfuel)%nat ->
+  run_scan fuel E SP T sl "StrRead::ignore_str" [] s buf = let* s' := slice_ignore_loop mfuel E s in Ok (RvUnit, buf, s').
+Proof.
+  intros s buf fuel mfuel Hv Hf Hm. do 2 (destruct fuel as [|fuel]; [exfalso; lia|]).
+  enter "StrRead::ignore_str" SCAN_StrRead_ignore_str. step. rewrite (call_sign s buf _ mfuel) by (auto; lia).
+  destruct (slice_ignore_loop mfuel E s) as [s'| | |]; reflexivity.
+Qed.
+End SliceGlue.
+
+Lemma call_iopsb v c s buf f mfuel : (2 * length (rest s) + 31 <= f)%nat -> (length (rest s) + 2 <= mfuel)%nat ->
+  call_fn (exec f E SP T sl) T "IoRead::parse_str_bytes" [VBool v; VClo c] s buf = io_post E c buf (io_str_loop mfuel E v s).
+Proof. apply io_parse_str_bytes_src. Qed.
+Theorem io_parse_str_src : forall s buf fuel mfuel,
+  (2 * length (rest s) + 33 <= fuel)%nat -> (length (rest s) + 2 <= mfuel)%nat ->
+  run_scan fuel E SP T sl "IoRead::parse_str" [] s buf = io_ref_post E CloAsStr buf (io_str_loop mfuel E true s).
+Proof.
+  intros s buf fuel mfuel Hf Hm. do 2 (destruct fuel as [|fuel]; [exfalso; lia|]).
+  enter "IoRead::parse_str" SCAN_IoRead_parse_str. step. rewrite (call_iopsb true CloAsStr s buf _ mfuel) by lia.
+  unfold io_post, io_ref_post. destruct (io_str_loop mfuel E true s) as [[out s']| | |]; cbn; try reflexivity.
+  destruct (clo_model E CloAsStr s' (buf ++ out)) as [t| | |]; reflexivity.
+Qed.
+Theorem io_parse_str_raw_src : forall s buf fuel mfuel,
+  (2 * length (rest s) + 33 <= fuel)%nat -> (length (rest s) + 2 <= mfuel)%nat ->
+  run_scan fuel E SP T sl "IoRead::parse_str_raw" [] s buf = io_ref_post E CloBytes buf (io_str_loop mfuel E false s).
+Proof.
+  intros s buf fuel mfuel Hf Hm. do 2 (destruct fuel as [|fuel]; [exfalso; lia|]).
+  enter "IoRead::parse_str_raw" SCAN_IoRead_parse_str_raw. step. rewrite (call_iopsb false CloBytes s buf _ mfuel) by lia.
+  unfold io_post, io_ref_post. destruct (io_str_loop mfuel E false s) as [[out s']| | |]; cbn; try reflexivity.
+Qed.
+End Glue.
+
+(* ---- the trait methods against Model/Str.v parse_str / parse_str_raw / ignore_str (scratch cleared by the caller, as de.rs does) ---------- *)
+(* (contents, borrowed?, reader) of the model as (Reference, scratch afterwards, reader) *)
+Definition ref_of (r : res (bytes * bool * st)) : res (retv * bytes * st) :=
+  let* (out, borrowed, s') := r in Ok (RvRef borrowed out, (if borrowed then [] else out), s').
+Definition reader_name (E : env) : string := match rk E with RSlice => "SliceRead" | RStr => "StrRead" | RIo => "IoRead" end.
+Definition slice_hyps (E : env) (sl : bytes) (s : st) : Prop := is_io E = false -> view_ok sl s /\ word_ok sl /\ bytes_ok sl.
+
+Lemma psb_post_nil E c r : psb_post E c [] r =
+  let* (out, copied, s') := r in let* t := clo_model E c s' out in Ok (RvRef (negb copied) t, (if copied then out else []), s').
+Proof.
+  unfold psb_post. destruct r as [[[out cp] s']| | |]; cbn [bind]; try reflexivity.
+  unfold is_nil. cbn [negb]. rewrite orb_false_r. destruct cp; cbn [negb]; rewrite ?app_nil_l; reflexivity.
+Qed.
+Lemma io_ref_post_nil E c r : io_ref_post E c [] r = let* (out, s') := r in let* t := clo_model E c s' out in Ok (RvRef false t, out, s').
+Proof. unfold io_ref_post. destruct r as [[out s']| | |]; cbn [bind]; reflexivity. Qed.
+
+Theorem read_parse_str_src : forall E sl s fuel, slice_hyps E sl s -> (2 * length (rest s) + 44 <= fuel)%nat ->
+  run_scan fuel E SP T sl (reader_name E ++ "::parse_str") [] s [] = ref_of (Str.parse_str E s).
+Proof.
+  intros [k tm cf] sl s fuel Hs Hf. unfold reader_name, Str.parse_str, slice_hyps, is_io in *. cbn [rk] in *. destruct k; cbn [String.append].
+  - destruct (Hs eq_refl) as (Hv & Hw & Hb).
+    rewrite (slice_parse_str_src (mkEnv RSlice tm cf) sl eq_refl Hw Hb s [] fuel (str_fuel s) Hv) by (unfold str_fuel; lia). rewrite psb_post_nil. unfold ref_of.
+    destruct (slice_str_loop _ _ _ _) as [[[out cp] s1]| | |]; cbn [bind]; try reflexivity.
+    unfold clo_model, as_str_model. destruct (utf8_valid out); cbn [bind]; [destruct cp; reflexivity|reflexivity].
+  - destruct (Hs eq_refl) as (Hv & Hw & Hb).
+    rewrite (str_parse_str_src (mkEnv RStr tm cf) sl eq_refl Hw Hb s [] fuel (str_fuel s) Hv) by (unfold str_fuel; lia). rewrite psb_post_nil. unfold ref_of.
+    destruct (slice_str_loop _ _ _ _) as [[[out cp] s1]| | |]; cbn [bind]; try reflexivity.
+    unfold clo_model. cbn [bind]. destruct cp; reflexivity.
+  - rewrite (io_parse_str_src _ sl s [] fuel (str_fuel s)) by (unfold str_fuel; lia). rewrite io_ref_post_nil. unfold ref_of.
+    destruct (io_str_loop _ _ _ _) as [[out s1]| | |]; cbn [bind]; try reflexivity.
+    unfold clo_model, as_str_model. destruct (utf8_valid out); cbn [bind]; reflexivity.
+Qed.
+
+Theorem read_parse_str_raw_src : forall E sl s fuel, slice_hyps E sl s -> (2 * length (rest s) + 46 <= fuel)%nat ->
+  run_scan fuel E SP T sl (reader_name E ++ "::parse_str_raw") [] s [] = ref_of (Str.parse_str_raw E s).
+Proof.
+  intros [k tm cf] sl s fuel Hs Hf. unfold reader_name, Str.parse_str_raw, slice_hyps, is_io in *. cbn [rk] in *. destruct k; cbn [String.append].
+  - destruct (Hs eq_refl) as (Hv & Hw & Hb).
+    rewrite (slice_parse_str_raw_src (mkEnv RSlice tm cf) sl eq_refl Hw Hb s [] fuel (str_fuel s) Hv) by (unfold str_fuel; lia). rewrite psb_post_nil. unfold ref_of.
+    destruct (slice_str_loop _ _ _ _) as [[[out cp] s1]| | |]; cbn [bind]; try reflexivity.
+    unfold clo_model. cbn [bind]. destruct cp; reflexivity.
+  - destruct (Hs eq_refl) as (Hv & Hw & Hb).
+    rewrite (str_parse_str_raw_src (mkEnv RStr tm cf) sl eq_refl Hw Hb s [] fuel (str_fuel s) Hv) by (unfold str_fuel; lia). rewrite psb_post_nil. unfold ref_of.
+    destruct (slice_str_loop _ _ _ _) as [[[out cp] s1]| | |]; cbn [bind]; try reflexivity.
+    unfold clo_model. cbn [bind]. destruct cp; reflexivity.
+  - rewrite (io_parse_str_raw_src _ sl s [] fuel (str_fuel s)) by (unfold str_fuel; lia). rewrite io_ref_post_nil. unfold ref_of.
+    destruct (io_str_loop _ _ _ _) as [[out s1]| | |]; cbn [bind]; reflexivity.
+Qed.
+
+Theorem read_ignore_str_src : forall E sl s buf fuel, slice_hyps E sl s -> (length (rest s) + 43 <= fuel)%nat ->
+  run_scan fuel E SP T sl (reader_name E ++ "::ignore_str") [] s buf = let* s' := Str.ignore_str E s in Ok (RvUnit, buf, s').
+Proof.
+  intros [k tm cf] sl s buf fuel Hs Hf. unfold reader_name, Str.ignore_str, slice_hyps, is_io in *. cbn [rk] in *. destruct k; cbn [String.append].
+  - destruct (Hs eq_refl) as (Hv & Hw & Hb). apply slice_ignore_str_src; auto; unfold str_fuel; lia.
+  - destruct (Hs eq_refl) as (Hv & Hw & Hb). apply str_ignore_str_src; auto; unfold str_fuel; lia.
+  - apply io_ignore_str_src; unfold str_fuel; lia.
+Qed.
+
+(* every cursor is the view of some slice: bytes before the index are never read *)
+Definition slice_of (s : st) : bytes := repeat 0 (off s) ++ rest s.
+Lemma view_ok_slice_of s : view_ok (slice_of s) s.
+Proof.
+  unfold view_ok, slice_of. split.
+  - rewrite skipn_app, repeat_length, Nat.sub_diag. rewrite skipn_all2 by (rewrite repeat_length; lia). reflexivity.
+  - rewrite app_length, repeat_length. lia.
+Qed.
+
+(* ---- the exported statement ------------------------------------------------------------------------------------------------ *)
+Theorem string_scanning_is_translated_source : forall (E : env) (sl : bytes) (s : st) (buf : bytes) (fuel mfuel : nat),
+  let len := length (rest s) in
+  let run := fun fn args => run_scan fuel E STR_PROG SCAN_PROG sl fn args s buf in
+  (* is_escape(ch, including_control_characters) *)
+  (forall b ctrl, (1 <= fuel)%nat -> run "is_escape" [VInt TU8 b; VBool ctrl] = Ok (RvBool (is_escape b ctrl), buf, s)) /\
+  (* as_str(read, slice) *)
+  (forall w, (1 <= fuel)%nat -> run "as_str" [VBytes w] = let* t := as_str_model E s w in Ok (RvStr t, buf, s)) /\
+  (* SliceRead (and StrRead, whose delegate is one): the cursor is the view of the slice; usize and u8 are what they are *)
+  (is_io E = false -> view_ok sl s -> word_ok sl -> bytes_ok sl ->
+     ((esc_span true (rest s) + 4 <= fuel)%nat ->
+        run "SliceRead::skip_to_escape_slow" [] = Ok (RvUnit, buf, moved sl (esc_span true (rest s)) s)) /\
+     (forall ctrl, (16 <= fuel)%nat ->
+        run "SliceRead::skip_to_escape" [VBool ctrl] = Ok (RvUnit, buf, moved sl (esc_span ctrl (rest s)) s)) /\
+     (forall v c, (2 * len + 42 <= fuel)%nat -> (len + 2 <= mfuel)%nat ->
+        run "SliceRead::parse_str_bytes" [VBool v; VClo c] = psb_post E c buf (slice_str_loop mfuel E v s)) /\
+     ((len + 41 <= fuel)%nat -> (len + 1 <= mfuel)%nat ->
+        run "SliceRead::ignore_str" [] = let* s' := slice_ignore_loop mfuel E s in Ok (RvUnit, buf, s')) /\
+     ((2 * len + 44 <= fuel)%nat -> (len + 2 <= mfuel)%nat ->
+        run "SliceRead::parse_str" [] = psb_post E CloAsStr buf (slice_str_loop mfuel E true s)) /\
+     ((2 * len + 44 <= fuel)%nat -> (len + 2 <= mfuel)%nat ->
+        run "SliceRead::parse_str_raw" [] = psb_post E CloBytes buf (slice_str_loop mfuel E false s)) /\
+     ((2 * len + 44 <= fuel)%nat -> (len + 2 <= mfuel)%nat ->
+        run "StrRead::parse_str" [] = psb_post E CloUnchecked buf (slice_str_loop mfuel E true s)) /\
+     ((2 * len + 46 <= fuel)%nat -> (len + 2 <= mfuel)%nat ->
+        run "StrRead::parse_str_raw" [] = psb_post E CloBytes buf (slice_str_loop mfuel E false s)) /\
+     ((len + 43 <= fuel)%nat -> (len + 1 <= mfuel)%nat ->
+        run "StrRead::ignore_str" [] = let* s' := slice_ignore_loop mfuel E s in Ok (RvUnit, buf, s'))) /\
+  (* IoRead: generic calls only, so for every reader kind *)
+  (forall v c, (2 * len + 31 <= fuel)%nat -> (len + 2 <= mfuel)%nat ->
+     run "IoRead::parse_str_bytes" [VBool v; VClo c] = io_post E c buf (io_str_loop mfuel E v s)) /\
+  ((len + 31 <= fuel)%nat -> (len + 1 <= mfuel)%nat ->
+     run "IoRead::ignore_str" [] = let* s' := io_ignore_loop mfuel E s in Ok (RvUnit, buf, s')) /\
+  ((2 * len + 33 <= fuel)%nat -> (len + 2 <= mfuel)%nat ->
+     run "IoRead::parse_str" [] = io_ref_post E CloAsStr buf (io_str_loop mfuel E true s)) /\
+  ((2 * len + 33 <= fuel)%nat -> (len + 2 <= mfuel)%nat ->
+     run "IoRead::parse_str_raw" [] = io_ref_post E CloBytes buf (io_str_loop mfuel E false s)) /\
+  (* Read::{parse_str, parse_str_raw, ignore_str} of the reader kind of E, scratch cleared: Model/Str.v parse_str / parse_str_raw / ignore_str *)
+  (slice_hyps E sl s -> (2 * len + 46 <= fuel)%nat ->
+     run_scan fuel E STR_PROG SCAN_PROG sl (reader_name E ++ "::parse_str")%string [] s [] = ref_of (Str.parse_str E s) /\
+     run_scan fuel E STR_PROG SCAN_PROG sl (reader_name E ++ "::parse_str_raw")%string [] s [] = ref_of (Str.parse_str_raw E s) /\
+     run (reader_name E ++ "::ignore_str")%string [] = let* s' := Str.ignore_str E s in Ok (RvUnit, buf, s')).
+Proof.
+  intros E sl s buf fuel mfuel len run. unfold run, len.
+  split; [intros; apply is_escape_src; assumption|].
+  split; [intros; apply as_str_src; assumption|].
+  split.
+  { intros Hio Hv Hw Hb.
+    split; [intros; apply skip_to_escape_slow_src; assumption|].
+    split; [intros; apply skip_to_escape_src; auto|].
+    split; [intros; apply slice_parse_str_bytes_src; assumption|].
+    split; [intros; apply slice_ignore_str_src; assumption|].
+    split; [intros; apply slice_parse_str_src; assumption|].
+    split; [intros; apply slice_parse_str_raw_src; assumption|].
+    split; [intros; apply str_parse_str_src; assumption|].
+    split; [intros; apply str_parse_str_raw_src; assumption|].
+    intros; apply str_ignore_str_src; assumption. }
+  split; [intros; apply io_parse_str_bytes_src; assumption|].
+  split; [intros; apply io_ignore_str_src; assumption|].
+  split; [intros; apply io_parse_str_src; assumption|].
+  split; [intros; apply io_parse_str_raw_src; assumption|].
+  intros Hs Hf.
+  split; [apply read_parse_str_src; [exact Hs|lia]|].
+  split; [apply read_parse_str_raw_src; [exact Hs|lia]|].
+  apply read_ignore_str_src; [exact Hs|lia].
+Qed.
+
+(* not vacuous: the interpreted source on  abcdefghijk\nx  + closing quote + comma, after the opening quote (SWAR chunk, escape, copy), on a borrowed string,
+   with a non-empty scratch buffer, on an io reader, a control character in both modes, and with too little fuel *)
+Definition E_slice := mkEnv RSlice TEof (mkCfg false false false false).
+Definition E_io := mkEnv RIo TEof (mkCfg false false false false).
+Definition ex_in : bytes := [34; 97; 98; 99; 100; 101; 102; 103; 104; 105; 106; 107; 92; 110; 120; 34; 44].
+Example parse_str_runs :
+  run_scan 80 E_slice STR_PROG SCAN_PROG ex_in "SliceRead::parse_str" [] (set_index ex_in 1 (init_st [])) []
+  = Ok (RvRef false [97; 98; 99; 100; 101; 102; 103; 104; 105; 106; 107; 10; 120],
+        [97; 98; 99; 100; 101; 102; 103; 104; 105; 106; 107; 10; 120], mkSt [44] 16 false DEPTH0)
+  /\ run_scan 80 E_slice STR_PROG SCAN_PROG [34; 97; 98; 34] "SliceRead::parse_str_raw" [] (set_index [34; 97; 98; 34] 1 (init_st [])) []
+  = Ok (RvRef true [97; 98], [], mkSt [] 4 false DEPTH0)
+  /\ run_scan 80 E_slice STR_PROG SCAN_PROG [34; 97; 98; 34] "StrRead::parse_str" [] (set_index [34; 97; 98; 34] 1 (init_st [])) [7]
+  = Ok (RvRef false [7; 97; 98], [7; 97; 98], mkSt [] 4 false DEPTH0)
+  /\ run_scan 80 E_io STR_PROG SCAN_PROG [] "IoRead::parse_str" [] (init_st [97; 92; 110; 98; 34; 1]) []
+  = Ok (RvRef false [97; 10; 98], [97; 10; 98], mkSt [1] 5 false DEPTH0)
+  /\ run_scan 80 E_slice STR_PROG SCAN_PROG [97; 98; 10; 34] "SliceRead::parse_str" [] (init_st [97; 98; 10; 34]) []
+  = Err ControlCharacterWhileParsingString 3
+  /\ run_scan 80 E_slice STR_PROG SCAN_PROG [97; 98; 10; 34] "SliceRead::parse_str_raw" [] (init_st [97; 98; 10; 34]) []
+  = Ok (RvRef true [97; 98; 10], [], mkSt [] 4 false DEPTH0)
+  /\ run_scan 80 E_slice STR_PROG SCAN_PROG ex_in "SliceRead::ignore_str" [] (set_index ex_in 1 (init_st [])) []
+  = Ok (RvUnit, [], mkSt [44] 16 false DEPTH0)
+  /\ run_scan 6 E_slice STR_PROG SCAN_PROG ex_in "SliceRead::parse_str" [] (set_index ex_in 1 (init_st [])) [] = OutOfFuel.
+Proof. repeat split; vm_compute; reflexivity. Qed.
+
+Print Assumptions string_scanning_is_translated_source.
